@@ -5,6 +5,7 @@ import time
 import common
 from e2e import try_
 from common import sx
+import c13_hist
 
 
 def div_vectors(V, maxlen):
@@ -319,10 +320,13 @@ def run(run):
     ]
     run.rule = ("exhaustive: all (old divisions, new divisions, force) over an ordered domain incl. repeated last values and single-value ranges: "
                 "real RepartitionDivisions._layer vs model repart_plan (structural) AND real computed partitions vs target ranges; all (n_in,n_out)<=N for count-based; "
-                "API sweep over index dtypes; non-trivial = a plan was produced (not rejected / identical)")
+                "API sweep over index dtypes; repartitioning of derived collections (concatenations with separated / touching / overlapping "
+                "index ranges, partition selections, label slices, filters, chained repartitionings) vs pandas rows, input order and "
+                "computed output partitions; non-trivial = a plan was produced (not rejected / identical)")
     run.proofs("PropC13.v")
     m = common.Model()
     quick = run.tier == "quick"
     divisions_sweep(run, 5 if quick else 7, 4 if quick else 6, m)
     count_sweep(run, 24 if quick else 100, m)
     api_sweep(run)
+    c13_hist.history_sweep(run)
